@@ -29,6 +29,53 @@ fn main() {
           let _ = ctx.term().await;
           tokio::time::timeout(Duration::from_secs(3), h).await.is_ok()
         }
+        "Q" => {
+          // does ReadyPipeQueue::close() release a blocked pop() while a sender clone is still alive?
+          let q = std::sync::Arc::new(rzmq::verif::Rpq::<u32>::new(4));
+          let keep = q.register_pipe(1, 4, 1);
+          let q2 = q.clone();
+          let h = tokio::spawn(async move { q2.pop().await.is_err() });
+          tokio::time::sleep(Duration::from_millis(20)).await;
+          q.close();
+          let r = tokio::time::timeout(Duration::from_secs(2), h).await.is_ok();
+          println!("  Q: pop released by close() with a live sender clone: {}", r);
+          // and a pop() started after close()
+          let q3 = q.clone();
+          let r2 = tokio::time::timeout(Duration::from_secs(2), async move { q3.pop().await.is_err() }).await.is_ok();
+          println!("  Q: pop started after close() returns: {}", r2);
+          drop(keep);
+          r && r2
+        }
+        "S" => {
+          // SUB recv() racing with a connection attaching and close()/term()
+          let publ = ctx.socket(SocketType::Pub).unwrap();
+          let tr = if it % 2 == 0 { util::Transport::Ipc } else { util::Transport::Tcp };
+          let ep = util::bind_fresh(&publ, tr).await.unwrap();
+          let sub = ctx.socket(SocketType::Sub).unwrap();
+          sub.set_option(opt::SUBSCRIBE, "").await.unwrap();
+          let s2 = sub.clone();
+          let h = tokio::spawn(async move {
+            loop {
+              if s2.recv().await.is_err() {
+                return true;
+              }
+            }
+          });
+          sub.connect(&ep).await.unwrap();
+          tokio::time::sleep(Duration::from_micros((it as u64 * 53) % 4000)).await;
+          let s3 = sub.clone();
+          let c = tokio::spawn(async move {
+            let _ = s3.close().await;
+          });
+          let _ = tokio::time::timeout(Duration::from_secs(10), ctx.term()).await;
+          let _ = c.await;
+          let t = std::time::Instant::now();
+          let ok = tokio::time::timeout(Duration::from_secs(60), h).await.is_ok();
+          if t.elapsed() > Duration::from_secs(2) {
+            println!("  S it={} recv() returned {:?} after close+term (ok={}) live_actors={}", it, t.elapsed(), ok, rzmq::verif::live_actors(&ctx));
+          }
+          ok
+        }
         "B" => {
           let s = ctx.socket(SocketType::Pull).unwrap();
           let ep = util::bind_fresh(&s, util::Transport::Tcp).await.unwrap();
